@@ -509,15 +509,30 @@ float64_t igris_atof64(const char *nptr, char **endptr)
         }
     }
 
-    while (d > 0)
+    // Scale by 10^d with as few roundings as possible: the power is built by
+    // squaring (10^1 .. 10^22 are exact in binary64) and applied in a single
+    // multiplication or division, instead of one rounding per decimal place.
+    while (d != 0)
     {
-        val *= 10.0;
-        d--;
-    }
-    while (d < 0)
-    {
-        val *= 0.1;
-        d++;
+        int up = d > 0;
+        int n = up ? d : -d;
+        double scale = 1.0;
+        double p = 10.0;
+
+        if (n > 256) // keeps the power finite; the rest follows in the next round
+            n = 256;
+        d = up ? d - n : d + n;
+
+        while (n)
+        {
+            if (n & 1)
+                scale *= p;
+            n >>= 1;
+            if (n)
+                p *= p;
+        }
+
+        val = up ? val * scale : val / scale;
     }
 
     if (endptr)
